@@ -1,6 +1,6 @@
 (* C16 - property theorems only. *)
-From HV Require Import Prelude PearsonQ C16_Model C16_Check C16_Proofs.
-From Coq Require Import QArith.
+From HV Require Import Prelude PearsonQ C16_Model C16_Check C16_Proofs C16_ProofsPerm.
+From Coq Require Import QArith Permutation.
 Open Scope Z_scope.
 
 (* LD(A,B) = LD(B,A): the statistic is symmetric in the two dosage vectors *)
@@ -88,7 +88,10 @@ Theorem C16_holds_ld_sound :
   holds_ld c = true ->
   (forall r, In r rows -> exists d, dosage_of c (l_fg c) (fst r) = Some d /\ r_near_spec (snd r) (corr td d))
   /\ (forall id, In id (requested c) -> countZ id (map fst rows) = 1)
-  /\ (target_is_hap c = true -> ~ In (l_target c) (map fst rows)).
+  /\ (target_is_hap c = true -> ~ In (l_target c) (map fst rows))
+  (* LD(A,B) = LD(B,A): the R printed for the target in the run whose target is the listed item b *)
+  /\ (forall b r, In (b, Ok r) (l_sym c) ->
+        exists d, dosage_of c (l_fg c) b = Some d /\ r_near_spec r (corr d td) /\ r_near_spec r (corr td d)).
 Proof. exact holds_ld_sound. Qed.
 Print Assumptions C16_holds_ld_sound.
 
@@ -157,3 +160,95 @@ Example C16_legacy_repeated_id_refuted :
   /\ option_map (map fst) (match model_ld witness16_dup with Ok r => Some r | Err _ => None end) = Some [1].
 Proof. exact legacy_dup_refuted. Qed.
 Print Assumptions C16_legacy_repeated_id_refuted.
+
+(* LD(A,B) = LD(B,A) across two runs of the model, whatever the two modes and --id lists: if B is
+   listed when A is the target and A is listed when B is the target, the two R are the same.
+   (IDs of haplotypes and variants are distinct, as the property's inputs are.) *)
+Theorem C16_ld_symmetric_across_runs :
+  forall gs lines keep A B idsA idsB fgA fgB rowsA rowsB rA rB,
+  NoDup (hap_ids lines ++ var_ids gs) ->
+  calc_ld false A gs lines keep idsA fgA = Ok rowsA -> In (B, rA) rowsA ->
+  calc_ld false B gs lines keep idsB fgB = Ok rowsB -> In (A, rB) rowsB ->
+  rA = rB.
+Proof. exact ld_symmetric. Qed.
+Print Assumptions C16_ld_symmetric_across_runs.
+
+(* the hypotheses are satisfiable: two haplotypes whose V lines are not in the order of the genotype
+   records and mix REF and ALT alleles, each the target in turn *)
+Example C16_ld_symmetric_example :
+  let gs := [mkgv 10 0 1 [(0,1); (1,1); (0,0); (1,0)] []; mkgv 11 0 1 [(0,0); (1,1); (0,1); (0,0)] [];
+             mkgv 12 0 1 [(1,0); (1,0); (0,1); (1,1)] []] in
+  let lines := [HL (mkhap 1 [(12, 1); (10, 0)]); HL (mkhap 3 [(11, 0); (10, 1)])] in
+  let keep := [true; true; true; true] in
+  NoDup (hap_ids lines ++ var_ids gs)
+  /\ exists r, calc_ld false 1 gs lines keep None false = Ok [(3, r)]
+             /\ calc_ld false 3 gs lines keep None false = Ok [(1, r)] /\ r <> None.
+Proof.
+  split.
+  - repeat constructor; cbn; intuition discriminate.
+  - eexists. vm_compute. split; [reflexivity|]. split; [reflexivity|discriminate].
+Qed.
+Print Assumptions C16_ld_symmetric_example.
+
+(* The order in which a haplotype's V lines are written does not matter: the model's dosage (or its
+   error) is the same for every permutation of the haplotype's (variant, allele) list. *)
+Theorem C16_hap_dosage_vline_order_irrelevant :
+  forall gs keep h h',
+  Permutation (h_vars h) (h_vars h') -> hap_dosage gs keep h = hap_dosage gs keep h'.
+Proof. exact hap_dosage_perm. Qed.
+Print Assumptions C16_hap_dosage_vline_order_irrelevant.
+
+(* A haplotype's dosage is the number of strands carrying all of its alleles, stated without
+   reference to the order of the V lines: for the i-th kept sample it is [b0 + b1] where [b0] ([b1])
+   says whether the first (second) strand has, for EVERY (variant, allele) of the haplotype, a call
+   equal to the index of that allele among the variant's alleles ([strand_carries] quantifies over
+   membership in the list only).  The matrix is rectangular: one call per sample for every record. *)
+Theorem C16_hap_dosage_counts_carrying_strands :
+  forall gs keep h d,
+  (forall g, In g gs -> length (gv_calls g) = length keep) ->
+  hap_dosage gs keep h = Ok d ->
+  length d = length (filter (fun k : bool => k) keep)
+  /\ forall i, (i < length d)%nat ->
+       exists b0 b1, nth_error d i = Some (b2z b0 + b2z b1)
+                     /\ (b0 = true <-> strand_carries gs keep (h_vars h) i false)
+                     /\ (b1 = true <-> strand_carries gs keep (h_vars h) i true).
+Proof. exact hap_dosage_counts_strands. Qed.
+Print Assumptions C16_hap_dosage_counts_carrying_strands.
+
+Theorem C16_strand_carries_order_irrelevant :
+  forall gs keep l l' i st,
+  Permutation l l' -> (strand_carries gs keep l i st <-> strand_carries gs keep l' i st).
+Proof. exact strand_carries_perm. Qed.
+Print Assumptions C16_strand_carries_order_irrelevant.
+
+(* content: V lines in reverse order of the records with REF and ALT mixed; samples 0, 1 and 3 each
+   have exactly one strand with 12 = ALT and 10 = REF, sample 2 has none *)
+Example C16_hap_dosage_example :
+  let gs := [mkgv 10 0 1 [(0,1); (1,0); (0,0); (1,0)] []; mkgv 11 0 1 [(0,0); (1,1); (0,1); (0,0)] [];
+             mkgv 12 0 1 [(1,0); (1,1); (0,0); (1,1)] []] in
+  hap_dosage gs [true; true; true; true] (mkhap 1 [(12, 1); (10, 0)]) = Ok [1; 1; 0; 1]
+  /\ hap_dosage gs [true; true; true; true] (mkhap 1 [(10, 0); (12, 1)]) = Ok [1; 1; 0; 1]
+  /\ hap_dosage gs [true; false; true; true] (mkhap 1 [(12, 1); (10, 0)]) = Ok [1; 0; 1].
+Proof. vm_compute. repeat split; reflexivity. Qed.
+Print Assumptions C16_hap_dosage_example.
+
+(* ... and so does not matter to anything calc_ld reports (rows or error), in every mode: [hline_perm]
+   relates two .hap contents with the same H and R lines in the same order where every haplotype's
+   V lines are a permutation of the other's. *)
+Theorem C16_ld_vline_order_irrelevant :
+  forall target gs lines lines' keep ids fg,
+  Forall2 hline_perm lines lines' ->
+  calc_ld false target gs lines keep ids fg = calc_ld false target gs lines' keep ids fg.
+Proof. exact calc_ld_perm. Qed.
+Print Assumptions C16_ld_vline_order_irrelevant.
+
+Example C16_hline_perm_example :
+  Forall2 hline_perm [HL (mkhap 1 [(12, 1); (10, 0); (11, 1)]); RL 2; HL (mkhap 3 [(11, 0); (10, 1)])]
+                     [HL (mkhap 1 [(10, 0); (11, 1); (12, 1)]); RL 2; HL (mkhap 3 [(10, 1); (11, 0)])].
+Proof.
+  constructor; [split; [reflexivity|]|constructor; [reflexivity|constructor; [split; [reflexivity|]|constructor]]];
+    cbn [h_vars].
+  - exact (Permutation_cons_append [(10, 0); (11, 1)] (12, 1)).
+  - apply perm_swap.
+Qed.
+Print Assumptions C16_hline_perm_example.
